@@ -192,6 +192,8 @@ def show(t, names=None) -> str:
         return f"PHI:{t[4] if len(t) > 4 else ''}<{show(t[3], names)}>"
     if k == "iter":
         return f"ITER({show(t[1], names)})" + ("" if t[2] is None else f"[{t[2]}]")
+    if k == "comp":
+        return f"{t[1]}<{show(t[2], names)} for ITER({show(t[3], names)})" + "".join(f" if {show(c, names)}" for c in t[4]) + ">"
     if k == "self":
         return f"self<{t[1]}>"
     if k == "inst":
@@ -273,6 +275,10 @@ def children(t):
         yield t[3]
     elif k == "iter":
         yield t[1]
+    elif k == "comp":
+        yield t[2]
+        yield t[3]
+        yield from t[4]
     elif k == "inst":
         if t[2] is not None:
             yield t[2]
@@ -356,6 +362,8 @@ def subst(t, mapping):
         return ("phi", t[1], t[2], r(t[3])) + tuple(t[4:])
     if k == "iter":
         return ("iter", r(t[1]), t[2])
+    if k == "comp":
+        return ("comp", t[1], r(t[2]), r(t[3]), tuple(r(c) for c in t[4]))
     if k == "inst":
         return ("inst", t[1], r(t[2]) if t[2] is not None else None) + tuple(t[3:])
     if k == "read":
@@ -547,6 +555,9 @@ def ev(t, val: Valuation):
         return ("slice",) + tuple(_key(ev(x, val)) for x in t[1:])
     if k == "iter":
         return _h("iter", _key(ev(t[1], val)), t[2])
+    if k == "comp":
+        # a comprehension as a whole is an uninterpreted function of its parts (element, iterable, filters)
+        return _h("comp", t[1], _key(ev(t[3], val)), repr(t[2]), repr(t[4]))
     if k == "read":
         return _h("read", repr(_key(ev(t[1], val))) if isinstance(t[1], tuple) else t[1], _key(ev(t[2], val)), _key(ev(t[3], val)), t[4:] and t[4])
     if k in ("type", "func", "cls", "mod"):
